@@ -138,10 +138,11 @@ def model_only(sh, rng, n):
         for r in inl[:rng.randint(1, 3)]:
             r.inline = False
             flips += 1
-        for r in db.refs:
-            if rng.random() < 0.3 and r.type in ('>', '<'):
-                r.type = '<' if r.type == '>' else '>'
-                flips += 1
+        if rng.random() < 0.5:          # half of the time ONLY inline-ness changes (references still compare equal)
+            for r in db.refs:
+                if rng.random() < 0.3 and r.type in ('>', '<'):
+                    r.type = '<' if r.type == '>' else '>'
+                    flips += 1
         try:
             after = table_order(db)
             from pv.clone import clone
